@@ -19,6 +19,9 @@ def main():
     wt = tempfile.mkdtemp(prefix="tulz-seedwt.", dir="/var/tmp")
     ev = tempfile.mkdtemp(prefix="tulz-seedev.", dir="/var/tmp")
     os.rmdir(wt)
+    # a private copy of the Lake project: the translators of the checks below write their tables there, never into /verif/lean
+    lean_copy = tempfile.mkdtemp(prefix="tulz-lean-selftest.", dir="/var/tmp")
+    subprocess.run(["rsync", "-a", os.path.join(VERIF, "lean") + "/", lean_copy + "/"], check=True)
     subprocess.run(["git", "-C", "/repo", "worktree", "add", "-q", wt, "HEAD"], check=True)
     rows = []
     try:
@@ -32,7 +35,7 @@ def main():
                 rows.append((n, prop, "PATCH DOES NOT APPLY to HEAD: " + r.stderr.strip()[:120]))
                 print(rows[-1], flush=True)
                 continue
-            env = dict(os.environ, TULZ_REPO=wt, VERIF_EVIDENCE_DIR=ev)
+            env = dict(os.environ, TULZ_REPO=wt, VERIF_EVIDENCE_DIR=ev, VERIF_LEAN_DIR=lean_copy)
             p = subprocess.run([sys.executable, os.path.join(VERIF, "tools", "check.py"), prop], cwd=VERIF, env=env, capture_output=True, text=True)
             viol = [l for l in p.stdout.split("\n") if l.startswith("VIOLATION")]
             concrete = [l for l in viol if "no-failing-input-found" not in l]
@@ -47,8 +50,7 @@ def main():
     finally:
         subprocess.run(["git", "-C", "/repo", "worktree", "remove", "--force", wt])
         shutil.rmtree(ev, ignore_errors=True)
-        # the translators wrote lean/Tulz/Generated/* from the scratch worktree: put back what /repo says
-        subprocess.run([sys.executable, os.path.join(VERIF, "tools", "translate_all.py")], env=dict(os.environ, TULZ_REPO="/repo"), capture_output=True)
+        shutil.rmtree(lean_copy, ignore_errors=True)
     missed = [r for r in rows if not r[2].startswith("CAUGHT")]
     print("%d seeds, %d caught with a concrete replay" % (len(rows), len(rows) - len(missed)))
     return 1 if missed else 0
